@@ -128,6 +128,9 @@ def _cover(ob, budget):
         s.add(f)
     text = s.to_smt2()
     t0 = time.time()
+    s.set("timeout", 3000)
+    if s.check() == z3.sat:
+        return {"verdict": "discharged", "backend": "cover-sat(z3 model)", "seconds": round(time.time() - t0, 3)}, text
     fr, k, fout = solve.run_finite(text, kmax=budget.get("kmax_cover", 4))
     dt = time.time() - t0
     if fr == "sat":
